@@ -113,12 +113,12 @@ fn check(plan: &Plan, out: &RunOut) -> CheckOut {
     }
     // sentinels: sent after the last fault and the last garbage datagram
     let w = &out.world;
-    let sentinel_ports: Vec<u16> = (0..8).map(|i| (5000 + (SENTINEL_SOCK + i) % 50_000) as u16).collect();
+    let sentinel_addrs: Vec<std::net::SocketAddr> = (0..8).map(|i| crate::reqs::client_addr(SENTINEL_SOCK + i)).collect();
     let sent_sentinels: Vec<&crate::exec::SentReq> = out.ctx.sent.iter().filter(|s| s.sock >= SENTINEL_SOCK).collect();
     let mut answered_ok = 0;
     let mut answered_any = 0;
     let mut first_latency: Option<u64> = None;
-    for q in v.recvs.iter().filter(|q| sentinel_ports.contains(&q.src.port())) {
+    for q in v.recvs.iter().filter(|q| sentinel_addrs.contains(&q.src)) {
         for &si in &q.answers {
             let s = &v.sends[si];
             if s.ok {
